@@ -92,6 +92,18 @@ def pushRule (n : Nat) (s : IState) : Done :=
                  stack := s.stack ++ [Spec.Stack.beNat ((s.code.drop (s.pc + 1)).take n)], pc := s.pc + 1 + n }
   else .fault .oobCode
 
+/-! ## EXP -/
+
+/-- EXP: δ = 2, α = 1, gas `10 + (10 | 50 from Spurious Dragon) · byteLen(exponent)`; the stack is checked before the
+gas (`pop_top!` precedes `gas_or_fail!`) -/
+def expRule (s : IState) : Done :=
+  match s.stack.reverse with
+  | a :: b :: rest =>
+    let c := Spec.Arith.expCost (enabled s.spec GasCalc.SpecId.SPURIOUS_DRAGON) b
+    if s.gas.remaining < c then .halt .OutOfGas [] { adv s with stack := (b :: rest).reverse }
+    else .next { charge (adv s) c with stack := (Spec.Arith.exp a b :: rest).reverse }
+  | _ => .halt .StackUnderflow [] (adv s)
+
 /-! ## control flow -/
 
 /-- the destination check of JUMP / JUMPI on the state left after the pops -/
